@@ -192,6 +192,9 @@ func runLoopCase(c LoopCase, o *vcore.Obs) (*loopStats, error) {
 							ts = hh.TS + 1
 						}
 					}
+					if ts%10 == 5 {
+						ts++ // remote stamps end in 5: a local stamp never equals one (ties are C01/C02)
+					}
 					fl, val := byte(0), []byte(ch.Val)
 					if del {
 						fl, val = 1, nil
